@@ -229,6 +229,13 @@ def hash_program_st(draw):
     nps = [None, None, None, None, "Radius", "KNearest", "LSHNearest", "Clusters", "TreeBandit"]
     cfg = draw(gen.config_st(nps=nps, arm_kinds=("str",), min_arms=3, max_arms=6, with_binarizer=True, scale_ok=True,
                              defaults_ok=True))
+    if draw(st.integers(0, 3)) == 0 and not (cfg["np"] and cfg["np"][0] == "TreeBandit"):
+        # work handed to other interpreters (process-based joblib backends): each worker process has its own string
+        # hash salt unless PYTHONHASHSEED pins it, so anything keyed by hash() shows here
+        cfg["n_jobs"] = 2
+        cfg["backend"] = draw(st.sampled_from([None, "loky", "multiprocessing"]))
+        if cfg["np"] and cfg["np"][0] == "LSHNearest" and draw(st.booleans()):
+            cfg["np"][1]["n_dimensions"] = draw(st.sampled_from([54, 60, 64]))
     h = gen.History(draw, cfg, max_rows=8, grid="small")
     h.fit(omit=True) if draw(st.integers(0, 3)) else h.partial_fit(omit=True)
     for _ in range(draw(st.integers(2, 8))):
